@@ -7,7 +7,9 @@ Seeded == INSTANCE LuaSession WITH Dev <- DevKept
 St(k, lim) == [k |-> k, lim |-> lim]
 First == { St(k, l) : k \in {"nofn", "nomod", "bad"}, l \in {1, 60} } \cup { St("heavy", 1), St("spin", 1) }
 Probe == { St("heavy", 1), St("heavy", 60), St("spin", 1) }
-Sessions == { <<f, p>> : f \in First, p \in Probe } \cup { <<f, St("pause", 0), p>> : f \in First, p \in Probe }
+Nested == { St("nmspin", 1), St("nfspin", 1), St("nbspin", 1) }
+Sessions == { <<n>> : n \in Nested } \cup { <<n, p>> : n \in Nested, p \in {St("heavy", 1), St("spin", 1)} }
+            \cup { <<f, p>> : f \in First, p \in Probe } \cup { <<f, St("pause", 0), p>> : f \in First, p \in Probe }
             \cup { <<f, g, St("pause", 0), p>> : f \in {St("nofn", 1), St("bad", 60)}, g \in {St("nomod", 60), St("spin", 1)}, p \in Probe }
 VARIABLE sess
 Init == sess \in Sessions
